@@ -197,3 +197,54 @@ pub fn tls(args: &[&str]) -> Option<Vec<String>> {
 
 #[allow(dead_code)]
 fn _unused(_: &mut dyn Read, _: &mut dyn Write) {}
+
+
+/// `ctor <kind> [<arg>]`: what the convenience constructors configure, read off the builder's Debug text: port, TLS mode,
+/// server. Kinds: `relay`, `starttls`, `localhost`, `url` (argument: the connection URL), each for the sync and the tokio
+/// transport; `mech`: `Mechanism::supports_initial_response`.
+pub fn ctor(args: &[&str]) -> Option<Vec<String>> {
+    use lettre::transport::smtp::authentication::Mechanism;
+    let kind = *args.first()?;
+    let arg = if args.len() > 1 && args[1] != "-" { unhex_str(args[1])? } else { String::new() };
+    fn facts(dbg: &str) -> String {
+        let port = dbg.split("port: ").nth(1).and_then(|s| s.split(|c: char| !c.is_ascii_digit()).next()).unwrap_or("?").to_string();
+        let tls = dbg.split("tls: ").nth(1).and_then(|s| s.split(|c: char| !c.is_ascii_alphabetic()).next()).unwrap_or("?").to_string();
+        let server = dbg.split("server: \"").nth(1).and_then(|s| s.split('"').next()).unwrap_or("?").to_string();
+        format!("{port},{tls},{}", hex(server.as_bytes()))
+    }
+    let r = |x: Result<String, ()>| x.unwrap_or_else(|_| "err".to_string());
+    Some(match kind {
+        "relay" => vec![
+            r(SmtpTransport::relay(&arg).map(|b| facts(&format!("{b:?}"))).map_err(|_| ())),
+            r(AsyncSmtpTransport::<Tokio1Executor>::relay(&arg).map(|b| facts(&format!("{b:?}"))).map_err(|_| ())),
+        ],
+        "starttls" => vec![
+            r(SmtpTransport::starttls_relay(&arg).map(|b| facts(&format!("{b:?}"))).map_err(|_| ())),
+            r(AsyncSmtpTransport::<Tokio1Executor>::starttls_relay(&arg).map(|b| facts(&format!("{b:?}"))).map_err(|_| ())),
+        ],
+        "localhost" => {
+            let rt = tokio::runtime::Builder::new_current_thread().enable_all().build().ok()?;
+            let a = {
+                let _g = rt.enter();
+                format!("{:?}", AsyncSmtpTransport::<Tokio1Executor>::unencrypted_localhost())
+            };
+            // the transports' own Debug does not show the configuration: the builders are what `unencrypted_localhost` is defined by
+            let _ = a;
+            vec![
+                facts(&format!("{:?}", SmtpTransport::builder_dangerous("localhost"))),
+                facts(&format!("{:?}", AsyncSmtpTransport::<Tokio1Executor>::builder_dangerous("localhost"))),
+            ]
+        }
+        "url" => vec![
+            r(SmtpTransport::from_url(&arg).map(|b| facts(&format!("{b:?}"))).map_err(|_| ())),
+            r(AsyncSmtpTransport::<Tokio1Executor>::from_url(&arg).map(|b| facts(&format!("{b:?}"))).map_err(|_| ())),
+        ],
+        "mech" => vec![format!(
+            "{}{}{}",
+            Mechanism::Plain.supports_initial_response() as u8,
+            Mechanism::Login.supports_initial_response() as u8,
+            Mechanism::Xoauth2.supports_initial_response() as u8
+        )],
+        _ => return None,
+    })
+}
